@@ -546,6 +546,24 @@ func syncHistories(c *Ctx) error {
 			hists = append(hists, syncInput{Origin: "history/chownDirToReceiver", CapS: 8, CapR: 8, Hist: []model.Tree{fixed, own, own},
 				Differs: []string{"metadata", "metadata", "metadata"}, HistOps: [][]string{{"initial"}, {"chown:dir-to-root"}, {"none"}}})
 		}
+		// a directory next to siblings whose names continue with a byte below the separator: its children, then the
+		// directory itself, disappear from the source; the siblings are not touched
+		for _, sib := range []string{"q.z", "q-z", "q z", "q!"} {
+			mkq := func(p string, seed int64) model.Entry {
+				e := model.Entry{Path: p, Type: "file", Perm: 0644, Size: 5, DSeed: seed, Data: fileData(seed, 5), Mtime: 1500000000000000000 + seed}
+				e.Content = model.ContentID(e.Data)
+				return e
+			}
+			qd := model.Entry{Path: "q", Type: "dir", Perm: 0755, Mtime: 1500000000000000333}
+			t0 := model.Tree{qd, mkq("q/x", 41), mkq("q/y", 42), mkq(sib, 43)}
+			t1 := model.Tree{qd, mkq(sib, 43)}
+			t2 := model.Tree{mkq(sib, 43)}
+			for _, t := range []model.Tree{t0, t1, t2} {
+				t.Sort()
+			}
+			hists = append(hists, syncInput{Origin: "history/siblingBelowSeparator", CapS: 8, CapR: 8, Hist: []model.Tree{t0, t1, t2, t2},
+				Differs: []string{"metadata", "metadata", "metadata", "metadata"}, HistOps: [][]string{{"initial"}, {"unlink:children"}, {"unlink:dir"}, {"none"}}})
+		}
 		// a device node renumbered only in the high bits of its minor / major number
 		for _, nm := range [][2]int64{{5, 65541}, {5, 261}, {1<<19 + 1, 1}} {
 			devA := append(fixed.Clone(), model.Entry{Path: "zdev", Type: "blk", Perm: 0660, Devmajor: 8, Devminor: nm[0], Mtime: 1500000000000000777})
@@ -726,6 +744,19 @@ func syncSchedules(c *Ctx) error {
 		if ci%2 == 1 {
 			dst, _ = MutateTree(c.Rand, src, o, 6)
 		}
+		if ci%2 == 0 {
+			// a large stale directory in the prior destination: the destination walker is still inside it when the diff
+			// removes it (more entries than the walker's channel holds)
+			dst = append(dst, model.Entry{Path: "0stale", Type: "dir", Perm: 0755, Mtime: uniqueMtime()})
+			for k := 0; k < 400; k++ {
+				e := newFile(c.Rand, genOpts{})
+				e.Size, e.Data = 1, fileData(e.DSeed, 1)
+				e.Content = model.ContentID(e.Data)
+				e.Path = fmt.Sprintf("0stale/f%04d", k)
+				dst = append(dst, e)
+			}
+			dst.Sort()
+		}
 		for si := 0; si < nSched; si++ {
 			in := syncInput{Src: src, Dst: dst, Mode: "dirty", Differ: "metadata", Origin: fmt.Sprintf("sched/case%d", ci),
 				CapS: []int{0, 1, 2, 7, 32, 64}[c.Rand.Intn(6)], CapR: []int{0, 1, 2, 7, 32, 64}[c.Rand.Intn(6)],
@@ -827,8 +858,16 @@ func runFiltered(c *Ctx, caseNo int, in filteredInput) ([]vt.Ev, *SyncResult, er
 	patternOnly := true
 	for _, layer := range in.Stack {
 		opt := &fsutil.FilterOpt{IncludePatterns: layer[0], ExcludePatterns: layer[1], FollowPaths: layer[2]}
+		// follow-paths: their resolution (against the FS this layer wraps) is appended to the layer's include list
+		incEff := layer[0]
+		refOK := true
 		if len(layer[2]) > 0 {
-			patternOnly = false
+			fr, ferr := fsutil.FollowLinks(f, layer[2])
+			if ferr != nil || fr == nil {
+				patternOnly, refOK = false, false
+			} else {
+				incEff = append(append([]string{}, layer[0]...), fr...)
+			}
 		}
 		nf, err := fsutil.NewFilterFS(f, opt)
 		if err != nil {
@@ -839,8 +878,8 @@ func runFiltered(c *Ctx, caseNo int, in filteredInput) ([]vt.Ev, *SyncResult, er
 		for i := range snap {
 			paths[i] = snap[i].Path
 		}
-		if len(layer[2]) == 0 {
-			for _, pl := range [][]string{layer[0]} {
+		if refOK {
+			for _, pl := range [][]string{incEff} {
 				if len(pl) > 0 {
 					pm, err := patternmatcher.New(pl)
 					if err != nil {
@@ -885,6 +924,30 @@ func runFiltered(c *Ctx, caseNo int, in filteredInput) ([]vt.Ev, *SyncResult, er
 	if selDiff == nil {
 		selDiff = [][][]int{}
 	}
+	// single layer with a reference: the view the naive evaluation yields (matched entries plus their ancestors), and the
+	// one the library's incremental matcher yields
+	var naiveView, incrView [][][]int
+	if len(in.Stack) == 1 && patternOnly {
+		viewOf := func(sel []bool) [][][]int {
+			keep := map[string]bool{}
+			for i := range snap {
+				if sel[i] {
+					keep[snap[i].Path] = true
+					for _, a := range ancestorsOf(snap[i].Path) {
+						keep[a] = true
+					}
+				}
+			}
+			out := [][][]int{}
+			for i := range snap {
+				if keep[snap[i].Path] {
+					out = append(out, vt.P(snap[i].Path))
+				}
+			}
+			return out
+		}
+		naiveView, incrView = viewOf(naive), viewOf(incr)
+	}
 	pfx := ""
 	snapEv := snap
 	if in.SubDir {
@@ -909,6 +972,7 @@ func runFiltered(c *Ctx, caseNo int, in filteredInput) ([]vt.Ev, *SyncResult, er
 		for k := range selDiff {
 			selDiff[k] = vt.P(pfx + snap[selIdx[k]].Path)
 		}
+		naiveView, incrView = nil, nil // (paths are prefixed in this variant: no reference view)
 	}
 	content := func(p string) ([]byte, bool) {
 		rc, err := f.Open(pfx + p)
@@ -927,7 +991,13 @@ func runFiltered(c *Ctx, caseNo int, in filteredInput) ([]vt.Ev, *SyncResult, er
 			}
 			return content(p)
 		},
-		Extra: vt.Ev{"input": vt.Opaque(in), "src": snapEv.Ev(), "origin": in.Origin, "filtered": true, "patternOnly": patternOnly, "selDiff": selDiff}})
+		Extra: func() vt.Ev {
+			x := vt.Ev{"input": vt.Opaque(in), "src": snapEv.Ev(), "origin": in.Origin, "filtered": true, "patternOnly": patternOnly, "selDiff": selDiff}
+			if naiveView != nil {
+				x["naiveView"], x["incrView"] = naiveView, incrView
+			}
+			return x
+		}()})
 	if err != nil {
 		return nil, nil, err
 	}
@@ -975,6 +1045,23 @@ func syncFiltered(c *Ctx) error {
 	{
 		mk := func(p string) model.Entry { e := newFile(c.Rand, genOpts{}); e.Path = p; return e }
 		t := model.Tree{{Path: "a", Type: "dir", Perm: 0755, Mtime: uniqueMtime()}, mk("a/b"), mk("c")}
+		// exceptions after what they carve from, together with follow-paths: the order of the include list is the caller's
+		{
+			ft := model.Tree{{Path: "dir", Type: "dir", Perm: 0755, Mtime: uniqueMtime()}, mk("dir/akey"), mk("dir/keep"),
+				{Path: "l", Type: "symlink", Link: "t", Perm: 0777, Mtime: uniqueMtime()}, mk("t")}
+			ft.Sort()
+			for _, inc := range [][]string{{"dir", "!dir/akey"}, {"!dir/akey", "dir"}} {
+				in := filteredInput{Src: ft, CapS: 4, CapR: 4, Origin: "filtered/orderedIncludesWithFollow", Stack: [][3][]string{{inc, nil, {"l"}}}}
+				evs, _, err := runFiltered(c, c.NextCase(), in)
+				if err != nil {
+					return err
+				}
+				for _, e := range evs {
+					c.Out.Emit(e)
+				}
+				c.Stats.Case(vt.Opaque(in), true)
+			}
+		}
 		for _, st := range [][3][]string{{{"a/b", "!a"}, nil, nil}, {nil, {"a/a", "!a"}, nil}} {
 			in := filteredInput{Src: t, CapS: 4, CapR: 4, Origin: "filtered/knownMatcherShape", Stack: [][3][]string{st}}
 			evs, _, err := runFiltered(c, c.NextCase(), in)
